@@ -41,9 +41,7 @@ func RenameArgumentsAction(newNames []string) RewriteAction {
 			// every use of the argument follows: assigned values, constraints
 			// and path indices
 			for j, assignment := range option.Assignments {
-				if assignment.Value.Argument != nil && assignment.Value.Argument.Name == previousName {
-					option.Assignments[j].Value.Argument.Name = newNames[i]
-				}
+				renameArgumentInValue(&option.Assignments[j].Value, previousName, newNames[i])
 
 				for k, constraint := range assignment.Constraints {
 					if constraint.Argument.Name == previousName {
@@ -62,6 +60,22 @@ func RenameArgumentsAction(newNames []string) RewriteAction {
 		option.AddToVeneerTrail("RenameArguments")
 
 		return []ast.Option{option}
+	}
+}
+
+// renameArgumentInValue renames an argument wherever an assignment value uses
+// it, envelopes included.
+func renameArgumentInValue(value *ast.AssignmentValue, previousName string, newName string) {
+	if value.Argument != nil && value.Argument.Name == previousName {
+		value.Argument.Name = newName
+	}
+
+	if value.Envelope == nil {
+		return
+	}
+
+	for i := range value.Envelope.Values {
+		renameArgumentInValue(&value.Envelope.Values[i].Value, previousName, newName)
 	}
 }
 
